@@ -198,6 +198,9 @@ def cases(tier, rng):
     # out-of-range indices on archives the library did not write: the index table of a VOL may have unused trailing slots, so the
     # number of slots exceeds the member count — every per-member call must still refuse every index >= GetCount()
     from . import volref as V
+    import random as _random
+    import os as _os
+    shared_rng = rng; rng = _random.Random(170817 + int(_os.environ.get("VERIF_SEED", "0") or 0))     # own stream: the sections below keep theirs
     for unused in ((1, 2, 5, 9) if thorough else (1, 3)):
         for k in (0, 1, 3):
             ms = [V.Member(bytes([97 + i]) + b".dat", bytes(rng.randrange(256) for _ in range(rng.choice([1, 4, 7])))) for i in range(k)]
@@ -207,6 +210,21 @@ def cases(tier, rng):
                 for o in "nskre": ops.append(f"{o}{i}"); exp.append("err")
             for i in range(k): ops += [f"n{i}", f"s{i}"]; exp += [hexs(ms[i].name), str(len(ms[i].payload))]
             yield Case(f"!vol.open {hexs(arc)} L {','.join(ops)}", expect=",".join(exp), tag="out-of-range-with-unused-slots")
+    rng = shared_rng
+    # member names shared between archives, deterministically: the same name (in different letter cases) in two or three loaded
+    # archives, with and without a loose file of that name — a type listing shows every name once (ignoring case), whichever
+    # archive is loaded first
+    for names, loose in (([("both.txt", "BOTH.TXT")], []), ([("three.txt", "THREE.txt", "Three.TXT")], []),
+                         ([("shared.txt", "Shared.TXT")], ["SHARED.txt"]), ([("a.txt", "A.TXT"), ("b.bmp", "B.BMP")], ["c.txt"])):
+        L = Lay()
+        for n in loose: L.loose[n] = b"loose-" + n.encode()
+        k = max(len(t) for t in names)
+        for j in range(k):
+            ms = [(t[j], bytes([65 + j]) * (3 + j)) for t in names if j < len(t)] + [(f"only{j}.txt", b"x" * j)]
+            L.vols.append((f"arc{j}.vol", ms))
+        qs = [("t", ".txt", True), ("t", ".TXT", True), ("t", "txt", True), ("t", ".bmp", True), ("t", ".txt", False), ("n",)]
+        for t in names: qs += [("g", t[0], True), ("g", t[-1].swapcase(), True), ("a", t[0])]
+        yield res_case(L, qs, "resolution-same-name-in-several-archives", nomodel=True)
     # resource resolution
     for it in range(300 if thorough else 90):
         overlap = it % 3 == 0       # member names shared between archives: answers may depend on the load order -> Python oracle only
